@@ -21,6 +21,21 @@ func main() {
 		cmdVerify(os.Args[2:])
 	case "check":
 		os.Exit(cmdCheck(os.Args[2:]))
+	case "funcs":
+		// govc funcs <pkg-pattern> <key-prefix>: list function keys (closures included)
+		w, err := loadWorld("/repo", []string{os.Args[2]}, nil)
+		if err != nil {
+			fmt.Fprintln(os.Stderr, err)
+			os.Exit(2)
+		}
+		var ks []string
+		for k, f := range w.funcs {
+			if strings.HasPrefix(k, os.Args[3]) {
+				ks = append(ks, fmt.Sprintf("%s\t%s", k, w.prog.Fset.Position(f.Pos())))
+			}
+		}
+		sort.Strings(ks)
+		fmt.Println(strings.Join(ks, "\n"))
 	default:
 		fmt.Fprintln(os.Stderr, "unknown command")
 		os.Exit(2)
